@@ -175,6 +175,22 @@ def index_trace(ctx, bins, thorough):
                                "cfg_file": "spatial/SpatialIndexTrace.cfg", "cfg": {}})
 
 
+def barneshut(ctx, bins, thorough):
+    """theta = 0: ForceOn equals the spec's direct pairwise sum (exact integer cubic force law)."""
+    cfgs = [("2d", 2, "{8,9,10}", "{1,2}", 3, "{0,520,585,1800}"),
+            ("3d", 3, "{8,9}", "{1,2}", 3, "{0,33288,37448,115209}")]
+    if thorough:
+        cfgs += [("2d-n4", 2, "{8,9,10}", "{1}", 4, "{0,520,585,1800}"),
+                 ("3d-27", 3, "{8,9,10}", "{1}", 3, "{0,33288,37448,115209}")]
+    for name, dim, coords, masses, maxn, probes in cfgs:
+        # the generator run also checks the spec's own theorems (third law) on every state
+        cases = ctx.gen("spatial/BarnesHut.tla", "spatial/BarnesHut_model.cfg", name="R1+R2 gen barneshut " + name,
+                        subst=dict(DIM=dim, COORDS=coords, OFF=OFF, MASSES=masses, MAXN=maxn, PROBES=probes,
+                                   EMIT="TRUE", INVS="ThirdLaw Single EmitState"))
+        for bn, b in bins.items():
+            ctx.replay(b, "barneshut", cases, [], name="R2 replay barneshut %s [%s]" % (name, bn))
+
+
 def run(ctx):
     os.makedirs(os.path.join(SPECS, "lib"), exist_ok=True)
     thorough = ctx.tier == "thorough"
@@ -186,6 +202,7 @@ def run(ctx):
     combin(ctx, bins, thorough)
     hilbert(ctx, bins, thorough)
     index_trace(ctx, bins, thorough)
+    barneshut(ctx, bins, thorough)
 
     ctx.assumptions += [
         "TLC/SANY and the CommunityModules Json module are trusted",
@@ -198,7 +215,10 @@ def run(ctx):
     return ctx.finish(
         rule="R2 index: one case = one history (bulk construction from <= MaxBuilt lattice points, then insertions, "
              "every sequence in the bound) with the answers of all its queries, replayed on every implementation "
-             "variant; non-trivial = at least two stored points.",
+             "variant; non-trivial = at least two stored points. R2 combin: one case = one enumeration (one (n,k) / dims "
+             "vector / Pascal row) with all its index-map checks; non-trivial = more than one object. R2 barneshut: one "
+             "case = one particle list with the forces on all its particles and 4 probes; non-trivial = >= 2 particles. "
+             "R3: one trace = one Hilbert table (full curve or window) / one recorded index history.",
         exhaustive=True)
 
 
